@@ -60,6 +60,12 @@ func (ov *Overlay) Nlayers() int {
 	return len(ov.layers)
 }
 
+// WithNlayers returns an Overlay with the same btree and nlayers empty layers.
+// It is for newly built indexes where all the data is in the btree.
+func (ov *Overlay) WithNlayers(nlayers int) *Overlay {
+	return OverlayForN(ov.bt, nlayers)
+}
+
 // BtreeLevels includes leaf level as well as tree levels
 func (ov *Overlay) BtreeLevels() int {
 	return ov.bt.TreeLevels() + 1
